@@ -149,6 +149,7 @@ class Env:
     # ---- operations ----------------------------------------------------------------------------------------------
     def call_hook(self, fname: str, *args, **kw):
         fn = self.oe.module_global(self.hook, fname)
+        self.oe.steps = 0  # the step budget bounds one operation, not the world's whole history
         return fn(*args, **kw)
 
     def new_context(self):
@@ -156,6 +157,7 @@ class Env:
 
     def new_unpickler(self, additions):
         c = self.repo.cls("fickling.ml.FicklingMLUnpickler")
+        self.oe.steps = 0
         return self.oe.ref(c)(file_of([]), also_allow=list(additions) if additions is not None else None)
 
     def binding(self, mod: str, attr: str):
@@ -166,6 +168,7 @@ class Env:
         """('unprotected',) | ('refused', exc) | ('resolved', [...]) | ('checked', inner-result) for calling `callee(<file>)`."""
         f = file_of(items, flagged)
         self.resolved_log.clear()
+        self.oe.steps = 0
         try:
             r = callee(f)
         except PyRaise as pe:
